@@ -103,6 +103,9 @@ def same_result(A, r1, r2):
 
 def make_job(name, funcs, build, call, exact_floats=True, timeout_s=900, fresh=True):
     def body(A, inp):
+        # every run of the body (symbolic path or concrete replay) starts from the module-level state of a fresh interpreter, so
+        # that "the second call differs from the first" means the same thing in both
+        _restore_module_state(_PRISTINE)
         args = inp
         snap = snapshot(args)
         st1, r1 = A.call(call, args)
@@ -120,7 +123,9 @@ def helper_jobs(tier):
     js = []
     # chord annotations in which neighbouring intervals carry the same chord (merge_chord_intervals joins them)
     import mir_eval.chord as CHORD
-    reps = [((2, 1), ['C:maj', 'C'], ['G:7']), ((2, 2), ['A:min', 'A:min'], ['N', 'N'])]
+    # (G:7 and G:9 have the same plain bitmap and different ones under reduce_extended_chords: the two encodings of one label
+    #  must not influence each other across calls)
+    reps = [((2, 1), ['C:maj', 'C'], ['G:7']), ((2, 2), ['A:min', 'A:min'], ['N', 'N']), ((2, 1), ['G:7', 'G:9'], ['G:9'])]
     if tier != 'quick':
         reps.append(((3, 2), ['C:maj', 'G:7', 'G:7'], ['F:maj', 'F']))
     for (size, rl, el) in reps:
@@ -239,6 +244,10 @@ def _restore_module_state(st):
             obj.update(fresh)
 
 
+import mir_eval   # noqa: E402  (all task modules are imported above; nothing has been called yet)
+_PRISTINE = _module_state()
+
+
 def interleave_job(first, then, size_first, size_then, kw_then):
     """the result of task `then`'s evaluate() does not depend on whether task `first`'s evaluate() ran before it in the same
     interpreter; the two histories are run from the same (restored) module state"""
@@ -260,7 +269,8 @@ def interleave_job(first, then, size_first, size_then, kw_then):
         a_inp = inp['a']
         if A.sym and first in FIRST_ARGS:
             a_inp = dict(args=tuple(S._wrap(x) if isinstance(x, np.ndarray) else x for x in a_inp['args']), kw={})
-        st = _module_state()
+        st = _PRISTINE
+        _restore_module_state(st)
         try:
             s1, r1 = A.call(lambda: ev_b.call(inp['b'], kw=inp['kw']))
             _restore_module_state(st)
